@@ -7,6 +7,8 @@ CHECKS = {
          "InvRule; go/ssa lowering; engine; z3"),
  "C08": ("twin lemma over two fully symbolic rules (all compared fields incl. list contents) and removeBadfilterRules over k<=3/4 symbolic rules for every $badfilter subset: result == non-badfilter rules without a twin, no duplicates, caller slice untouched",
          "InvRule; list entries one symbolic letter; go/ssa lowering; engine; z3"),
+ "C09": ("DNSResult.DNSRewrites over sequences of 0..3 (thorough 0..4/5) rewrite rules with symbolic exception/important flags and payloads of six kinds, against the order-independent reference filter; result list untouched",
+         "rules built field by field, re-parsed from text on replay; netip globals imported from the native process; engine; z3"),
  "C16": ("unbounded in the fields the function reads (64-bit option word, 32-bit mask, exception flag fully symbolic under the parser's representation invariant); counterexamples replayed from rule text through the real parser",
          "InvRule on option words (validated natively on the repo's own rule corpus); go/ssa lowering; engine; z3"),
 }
